@@ -378,14 +378,20 @@ pub fn gen(r: &mut Rng, i: u64) -> String {
     }
     // ---- drain: resolve every attempt, run tasks, poll everyone (twice), release everything, probe
     ops.push("mark".into());
-    for q in &issued { ops.push(format!("d {q} {}", if q % 3 == 0 { "fc" } else { "ok0" })); }
+    for round in 0..2 {
+        for q in &issued { ops.push(format!("d {q} {}", if (q + round) % 3 == 0 { "fc" } else { "ok0" })); }
+        ops.push("run".into());
+        for q in &issued { ops.push(format!("p {q}")); }
+    }
     ops.push("run".into());
+    // from here on every attempt has terminated and everybody has been polled since: no checkout may still be pending
+    ops.push("mark".into());
     for q in &issued { ops.push(format!("p {q}")); }
-    ops.push("run".into());
-    for q in &issued { ops.push(format!("p {q}")); }
+    // release everything, then probe every origin with a fresh request (third mark: probe phase)
     for q in &issued { ops.push(format!("f {q}")); }
     for c in 0..(issued.len() as u64 + 1) { ops.push(format!("cr {c}")); }
     ops.push("run".into());
+    ops.push("mark".into());
     for (j, k) in keyset.iter().enumerate() {
         let q = 100 + j as u64;
         ops.push(format!("i {q} {k} {}", (h2_bias == 2) as u8));
